@@ -94,8 +94,9 @@ CLAIMED = {
                 tech="deductive verification: total-preorder lemmas, set/sort library models, loop invariants with ghost extreme witnesses (pyvc/z3)"),
     "C02": dict(cat="other", ref="5/C02, 9.4",
                 text="Partial: for every population and input order it is PROVED (invariants over all seven loops of the real sorter) that "
-                     "front 1 is exactly the non-dominated subset and that no front number is below 1; the id lookup, crowding_distance per "
-                     "front and consequences of the rank specification are proved as well. The rank law for later fronts and 'nobody "
+                     "front 1 is exactly the non-dominated subset, that no front number is below 1 and that every member of a later front has a "
+                     "dominator in the previous front (front number <= true rank); the id lookup, crowding_distance per "
+                     "front and consequences of the rank specification are proved as well. 'All dominators lie in earlier fronts' and 'nobody "
                      "unranked' are NOT proved: the complete specification is evaluated on the real function over all order types and input "
                      "orders of n<=3 (quick) / n<=4 (thorough) points of a 3x3 grid plus random populations n<=7 (bounded).",
                 note=TRUST + " Later fronts: bounded run-time contract only, never counted as proved.",
